@@ -690,13 +690,10 @@ func SexpToGoStructs(
 		recov := recover()
 		if !cacheHit && err == nil && recov == nil {
 			asHash, ok := sexp.(*SexpHash)
-			if ok {
-				// cache it. we might be overwriting with
-				// ourselves, but faster to just write again
-				// than to read and compare then write.
+			if ok && asHash.TypeName == "hash" {
+				// plain hashes (maps) are cached when done; records are
+				// cached below, as soon as their Go object exists.
 				dedup[asHash] = result
-				//vv("dedup caching in SexpToGoStructs '%v' for hash name='%s'", result, asHash.TypeName)
-				//vv("dedup caching in SexpToGoStructs '%T' for hash name='%s'", result, asHash.TypeName)
 			}
 		}
 		if recov != nil {
@@ -814,9 +811,21 @@ func SexpToGoStructs(
 			//P("SexpToGoStructs dedup cache HIT! woot! alreadyGoStruct = '%v' for src.TypeName='%v'", alreadyGoStruct, src.TypeName)
 			// already did it. Return alreadyGoStruct.
 			cacheHit = true
-			vo := reflect.ValueOf(alreadyGoStruct).Elem()
-			targVa.Elem().Set(vo)
-
+			vo := reflect.ValueOf(alreadyGoStruct)
+			dst := targVa.Elem()
+			switch {
+			case src.TypeName == "hash":
+				// a map: the cache holds a pointer to it
+				dst.Set(vo.Elem())
+			case dst.Kind() == reflect.Struct && vo.Type().Elem() == dst.Type():
+				// a struct held by value gets a copy of the shared object
+				dst.Set(vo.Elem())
+			case vo.Type().AssignableTo(dst.Type()):
+				// pointer and interface positions share the one object
+				dst.Set(vo)
+			default:
+				return nil, fmt.Errorf("record of type '%s' (Go type %v) cannot be stored into a field of type %v", src.TypeName, vo.Type(), dst.Type())
+			}
 			return target, nil
 		}
 
@@ -1022,6 +1031,16 @@ func SexpToGoStructs(
 			//Q(" targTyp.Elem() = %v", targTyp.Elem())
 
 			panic(fmt.Errorf("type checking failed compare the factor associated with SexpHash and the provided target *T: expected '%s' (associated with typename '%s' in the GoStructRegistry) but saw '%s' type in target", tn, factType, targTyp))
+		}
+		// Remember the Go object of this record before its fields are
+		// filled: a second reference to the record (from a pointer, an
+		// interface or a struct-value position, or from inside the record
+		// itself) finds it here instead of converting the record again.
+		// A struct held by value inside its parent is not an object of
+		// its own: it is not cached, later references convert afresh.
+		if targVa.Kind() == reflect.Ptr && targVa.Elem().Kind() == reflect.Struct &&
+			(calldepth == 0 || targVa.Interface() == checkPtrStruct) {
+			dedup[src] = targVa.Interface()
 		}
 		//maploop:
 		for _, arr := range src.Map {
